@@ -27,6 +27,7 @@ PROPERTY = {
     "rule": "one case = one architecture / mode, one chunk of 100 byte strings and one group of failure classes (the classes of one known finding of that architecture, or every other class)",
     "trusted_base": ["CPython executes the real printers, parsers, assemblers and decoders; the sampling and the comparison are written in props/C16.py"],
     "assumptions": ["seeded family: 14 architectures / modes x 10 chunks x 100 strings quick (x 200 chunks thorough)",
+                    "curated family: every vector of test/arch/{x86,arm,aarch64,mips32,ppc32,msp430}/arch.py (read with ast) (quick: every tenth group of 10 vectors)",
                     "an instruction the decoder refuses is not a case"],
 }
 
@@ -75,14 +76,25 @@ _CHUNK = {}
 
 
 def run_chunk(a, k):
+    """-> (number of decoded instructions, [(tag, text)]).  k = int: 100 random strings; k = ('cur', j): the curated vectors
+    10j .. 10j+9 of test/arch/<arch>/arch.py (props/C15.py: curated) with the boundary variants of their last byte"""
     if (a, k) not in _CHUNK:
         name, attrib = ARCHS[a]
-        rng = random.Random(1600 + 1000 * a + k)
+        todo = []
+        if isinstance(k, tuple):
+            from props import C15
+            for b in C15.curated(name)[C15.CUR_CHUNK * k[1]:C15.CUR_CHUNK * (k[1] + 1)]:
+                data = b + bytes(16 - len(b)) if len(b) < 16 else b
+                todo.append((data, 0x1000))
+                todo += [(v, 0x1000) for v in C15.boundary_variants(data, len(b), sizes=(1,))]
+        else:
+            rng = random.Random(1600 + 1000 * a + k)
+            for _ in range(100):
+                data = bytes(rng.getrandbits(8) for _ in range(16))
+                todo.append((data, rng.choice((0, 0x1000, 0x401000, 0x80001000))))
         fails = []
         n = 0
-        for _ in range(100):
-            data = bytes(rng.getrandbits(8) for _ in range(16))
-            addr = rng.choice((0, 0x1000, 0x401000, 0x80001000))
+        for data, addr in todo:
             why = check_one(name, attrib, data, addr)
             if why is None:
                 continue
@@ -103,16 +115,20 @@ class ParseCases(BoundedContract):
         return [cls_mn.fromstring.__func__, instruction.to_string, cls_mn.asm.__func__, cls_mn.dis.__func__]
 
     def cases(self):
+        from props import C15
         n = 10 if self.tier == "quick" else 200
         out = []
         for a in range(len(ARCHS)):
             fam = family(ARCHS[a][0])
             gids = sorted(g for g, (f, _) in known_groups("C16").items() if f == fam) + [""]
-            out += [(a, k, g) for k in range(n) for g in gids]
+            ncur = (len(C15.curated(ARCHS[a][0])) + C15.CUR_CHUNK - 1) // C15.CUR_CHUNK
+            ks = list(range(n)) + [("cur", j) for j in range(ncur) if self.tier != "quick" or j % 10 == 0]
+            out += [(a, k, g) for k in ks for g in gids]
         return out
 
     def show(self, case):
-        return "%s chunk %d%s" % (ARCHS[case[0]][0], case[1], " (classes of %s)" % case[2] if case[2] else " (every other class)")
+        return "%s %s%s" % (ARCHS[case[0]][0], "chunk %d" % case[1] if isinstance(case[1], int) else "curated vectors %d..%d" % (
+            10 * case[1][1], 10 * case[1][1] + 9), " (classes of %s)" % case[2] if case[2] else " (every other class)")
 
     def check(self, case):
         import logging
